@@ -106,7 +106,7 @@ template <> struct HK<KHash> : HXD<KHash> { enum { ops = BASEOPS | M(SELF) | M(D
 	static void dup(KHash& h) { h.dup(); } };
 template <> struct HK<KSh> : HXD<KSh> { enum { ops = BASEOPS | M(SELF) | M(NULLIFY) | M(RAWSET) | M(UPDOWN) | M(CONVASSIGN), rec = 0 }; static const char* name() { return "Shared<Tracked>"; }
 	static KSh make(int tag) { return KSh(new Tracked(tag)); }
-	static int tag(const KSh& h) { return h._p && h._p->p ? ptag(*h) : -1; }
+	static int tag(const KSh& h) { return h.operator bool() ? ptag(*h) : -1; } // public API only: how the handle stores core and pointer is the library's business
 	static const void* orig(const KSh& h) { return h.get(); }
 	static void nullify(KSh& h) { h = KSh(); }
 	static void rawset(KSh& h, int tag) { h = new Tracked(tag); }
@@ -114,21 +114,21 @@ template <> struct HK<KSh> : HXD<KSh> { enum { ops = BASEOPS | M(SELF) | M(NULLI
 	static void convassign(KSh& local, const KSh& own) { Shared<TBase> b; b = own; local = b.as<Tracked>(); } };
 template <> struct HK<Obj> : HXD<Obj> { enum { ops = BASEOPS | M(SELF) | M(NULLIFY) | M(ASCOPY) | M(CLONE), rec = 0 }; static const char* name() { return "SmartObject-derived"; }
 	static Obj make(int tag) { Obj o; *o._()->t.heap = tag; return o; }
-	static int tag(const Obj& h) { return h._p ? ptag(h._()->t) : -1; }
+	static int tag(const Obj& h) { return !h.isnull() ? ptag(h._()->t) : -1; }
 	static const void* orig(const Obj& h) { return &h._()->t; }
 	static void nullify(Obj& h) { h = Obj((SmartObject_*)0); }
 	static Obj* ascopy(Obj& own) { return new Obj(own.as<Obj>()); }
-	static int clone(const Obj& own) { Obj c = own.clone(); return c._p == own._p ? -2 : tag(c); } };
+	static int clone(const Obj& own) { Obj c = own.clone(); return c.is(own) ? -2 : tag(c); } };
 template <> struct HK<KList> : HXD<KList> { enum { ops = BASEOPS | M(POP), rec = 1 }; static const char* name() { return "Shared<Node> list"; }
 	static KList make(int tag) { KList a(new Node(tag)), b(new Node(tag + 1)); a->next = b; return a; }
-	static int tag(const KList& h) { return h._p && h._p->p ? ptag(h->t) : -1; }
+	static int tag(const KList& h) { return h.operator bool() ? ptag(h->t) : -1; }
 	static const void* orig(const KList& h) { return &h->t; }
-	static void pop(KList& h) { if (h._p) h = h->next; } };
+	static void pop(KList& h) { if (h.operator bool()) h = h->next; } };
 template <> struct HK<ONode> : HXD<ONode> { enum { ops = BASEOPS | M(POP), rec = 1 }; static const char* name() { return "SmartObject-derived list"; }
 	static ONode make(int tag) { ONode a, b; *a._()->t.heap = tag; *b._()->t.heap = tag + 1; a._()->next = b; return a; }
-	static int tag(const ONode& h) { return h._p ? ptag(h._()->t) : -1; }
+	static int tag(const ONode& h) { return !h.isnull() ? ptag(h._()->t) : -1; }
 	static const void* orig(const ONode& h) { return &h._()->t; }
-	static void pop(ONode& h) { if (h._p) h = h._()->next; } };
+	static void pop(ONode& h) { if (!h.isnull()) h = h._()->next; } };
 template <> struct HK<KHRec> : HXD<KHRec> { enum { ops = BASEOPS | M(POP), rec = 1 }; static const char* name() { return "HashMap<int,Node{HashMap}>"; }
 	static KHRec make(int tag) { KHRec m(2); HNode n1(tag), n2(tag + 1); n1.kids[1] = n2; m[1] = n1; return m; }
 	static int tag(const KHRec& h) { if (h.length() == 0) return -1; const HNode* a = h.find(1); return h.length() == 1 && a ? ptag(a->t) : -2; }
@@ -408,7 +408,10 @@ static void onFatal(const char* what, const std::string& schedule) {
 	vf::restart_worker();
 }
 // schedule points of the library's atomic steps in one execution: kind 1 is ASL_VP_ATOMIC and also the scheduler's own point at
-// pthread_create, of which an execution has exactly one per worker
+// pthread_create, of which an execution has exactly one per worker. A count may legitimately be handled by other visible steps: a
+// read of the count (kind 21, e.g. "count is 1: I am the only owner, free without counting down") or a mutex acquisition (kind 4,
+// a lock-protected count; asl::Thread start/join lock nothing, so every lock point of a handle execution is the library's). The
+// vacuity guard of the handle jobs therefore counts all three: what it must notice is a count that passes NO schedule point.
 static int atomicPoints(const vsched::Result& x, size_t nworkers, int* locks, int* reads) {
 	int n = 0; *locks = 0; *reads = 0;
 	for (size_t i = 0; i < x.points.size(); i++) { int k = x.points[i].kind; if (k == 1) n++; else if (k == 4) ++*locks; else if (k == 21) ++*reads; }
@@ -457,8 +460,8 @@ static void handleJob(const Job& job, const std::string& kase, const std::string
 		}
 		if (!ok) { vf::violation("handle_lifetime", fmt("%s, programs [%s]: %s under schedule %s", HK<H>::name(), jobDesc(job).c_str(), outcome.c_str(), x.trace().c_str()), kase + "|" + x.trace()); return; }
 		int locks, reads, at = atomicPoints(x, n, &locks, &reads);
-		vf::add(W_ATOM[job.kind], at);
-		if (at < 2 * (int)n + 1) vf::add(C_BLIND); // n copies made by main + n + 1 handles dropped: fewer atomic steps seen = the library's ref counts no longer pass the hooked operations
+		vf::add(W_ATOM[job.kind], at + reads + locks);
+		if (at + reads + locks < 2 * (int)n + 1) vf::add(C_BLIND); // n copies made by main + n + 1 handles dropped, each at least one visible step on the count (atomic update, count read or lock): fewer = the library's ref counts no longer pass the hooked operations
 #ifdef ASL_VERIF_HAVE_COUNT_READ_POINT
 		vf::add(W_RCREAD, reads);
 #endif
@@ -496,7 +499,12 @@ static void counterJob(const Job& job, const std::string& kase, const std::strin
 		if (result != expected) { vf::violation("lost_update", fmt("%s programs [%s]: final value %d, expected %d, under schedule %s", atomicT ? "Atomic<Counter>" : "AtomicCount", jobDesc(job).c_str(), result, expected, x.trace().c_str()), kase + "|" + x.trace()); return; }
 		int locks, reads, at = atomicPoints(x, job.progs.size(), &locks, &reads);
 		if (atomicT) { vf::add(W_LOCK_AT, locks); for (size_t i = 0; i < job.progs.size(); i++) for (size_t k = 0; k < job.progs[i].size(); k++) vf::add(W_ATOP[job.progs[i][k]]); }
-		else { vf::add(W_ATOM_AC, at); if (at < minAtomic) vf::add(C_BLIND); }
+		else {
+			vf::add(W_ATOM_AC, at); if (at < minAtomic) vf::add(C_BLIND); // atomic updates only, as before: the one lock point of these executions is the harness's own `at = Counter(10)`
+#ifdef ASL_VERIF_HAVE_COUNT_READ_POINT
+			vf::add(W_RCREAD, reads); // the final read of the counter: shows that reads are schedule points even when no handle operation of the library reads a count
+#endif
+		}
 	};
 	if (replay) { vsched::Result x = vsched::run_once(vsched::parse_schedule(*replay), body); after(x); return; }
 	vsched::ExploreStats st = vsched::explore(body, after, job.bound);
@@ -563,7 +571,7 @@ int main(int argc, char** argv) {
 	vf::sample("HashMap<int,Node{HashMap}>: T1: own=<handle stored in own's object> || T2: own=own; drop own");
 	vf::sample("Atomic<Counter>: T1: a++; a/=1 || T2: a<<4; a>>x with Counter yielding between its read and write");
 	int rc = vf::finish();
-	if (rc == 0 && vf::get(C_BLIND)) { fprintf(stderr, "HARNESS ERROR: %llu execution(s) showed fewer atomic schedule points than handles were copied and dropped: the library's reference counts no longer go through the hooked atomicInc/atomicDec, the exploration is blind\n", (unsigned long long)vf::get(C_BLIND)); return 2; }
+	if (rc == 0 && vf::get(C_BLIND)) { fprintf(stderr, "HARNESS ERROR: %llu execution(s) showed fewer schedule points on reference counts (atomic updates + count reads + lock acquisitions) than handles were copied and dropped: the library's reference counts no longer go through the hooked atomicInc/atomicDec/atomicGet or a mutex, the exploration is blind\n", (unsigned long long)vf::get(C_BLIND)); return 2; }
 	return rc;
 }
 #endif
